@@ -699,6 +699,11 @@ func init() {
 		fmt.Printf("  C08 transparency: requests=%d\n", evals)
 		c08Failures(run, &evals, &nontrivial)
 		c08Agent(run, &evals, &nontrivial)
+		c08Auth(run, &evals, &nontrivial)
+		// forwarding between nodes of a TLS cluster (tls_util.go)
+		tn := c01TLS(run, "C08")
+		evals += tn
+		nontrivial += tn
 		run.Set("evaluations", evals)
 		run.Set("distinct_nontrivial", nontrivial)
 		grid := "every pair of dimensions fully crossed (others at a baseline)"
